@@ -8,7 +8,7 @@ import Cellml.Units.Worklist
     `str.strip` / `str.isnumeric` / `int`, the etree queries, the `UnitStore` methods, the deque operations) to one
     of the definitions below. Core Lean only. -/
 
-namespace Cellml.Tie
+namespace Cellml.Tie.PUnitDefs
 open Units
 
 /-! ## the attribute dict of a `<unit>` element (`etree._Attrib`) -/
@@ -244,4 +244,4 @@ def popRight {α} (l : List α) : Except PyErr (α × List α) :=
   | none => .error ⟨"IndexError"⟩
   | some a => .ok (a, l.dropLast)
 
-end Cellml.Tie
+end Cellml.Tie.PUnitDefs
